@@ -258,12 +258,21 @@ def r08d(ctx):
     froz_f = [c for c in frozen if mi_is_features(repo, c)]
     seen = {'frozen': 0, 'plain': 0}
     for p in paths(repo, bs):
+        sites = []
         for e in p.calls():
             t = e.data[0]
             c = callee(t)
-            if c in repo.classes and repo.find_getter(repo.classes[c], 'theta') is not None:
+            if c in repo.classes:
+                sites.append((e, c, []))
+            elif t[1][0] == 'ifexp' and all(x[0] == 'global' and x[1] in repo.classes
+                                            for x in (t[1][2], t[1][3])):
+                # (A if cond else B)(args): one creation site per alternative, under cond
+                sites.append((e, t[1][2][1], [(t[1][1], True)]))
+                sites.append((e, t[1][3][1], [(t[1][1], False)]))
+        for e, c, extra in sites:
+            if repo.find_getter(repo.classes[c], 'theta') is not None:
                 is_frozen = repo.classes[c] in frozen
-                conds = [(a, v) for a, v in guards_of(p, e)
+                conds = [(a, v) for a, v in guards_of(p, e) + extra
                          if mentions(a, lambda x: x[0] == 'global' and
                                      x[1].endswith(('get_graph_inputs', 'get_graph_outputs')))
                          or mentions(a, lambda x: x == ('const', 'output_connected'))]
